@@ -388,7 +388,11 @@ func (fr *frame) visitInstr(instr ssa.Instruction) bool {
 		fr.set(instr, s[:l])
 
 	case *ssa.MakeMap:
-		fr.set(instr, newMap(instr.Type().Underlying().(*types.Map).Key()))
+		mt := instr.Type().Underlying().(*types.Map)
+		if instr.Reserve != nil {
+			in.mapReserve(fr.get(instr.Reserve), isUnsigned(instr.Reserve.Type().Underlying().(*types.Basic)), elemSize(mt.Key())+elemSize(mt.Elem())+8, fr.posStr(instr.Pos()))
+		}
+		fr.set(instr, newMap(mt.Key()))
 
 	case *ssa.Range:
 		fr.set(instr, in.rangeIter(fr.get(instr.X), instr.X.Type()))
